@@ -124,7 +124,7 @@ func genesisBalances(spec *common.Spec, rng *rand.Rand, n int, pattern string) (
 			if i < n/2 || i < floor {
 				out[i] = max
 			} else {
-				out[i] = 17*gwei + common.Gwei(rng.Int63n(int64(14*gwei)))
+				out[i] = max/2 + gwei + common.Gwei(rng.Int63n(int64(max/2-2*gwei))) // 17..31 ETH for a 32 ETH cap
 			}
 		case "mixed":
 			r := rng.Intn(100)
@@ -136,7 +136,7 @@ func genesisBalances(spec *common.Spec, rng *rand.Rand, n int, pattern string) (
 			case r < 90:
 				out[i] = max + common.Gwei(rng.Int63n(int64(gwei)))
 			default:
-				out[i] = 17*gwei + common.Gwei(rng.Int63n(int64(15*gwei)))
+				out[i] = max/2 + gwei + common.Gwei(rng.Int63n(int64(max/2-gwei))) // 17..32 ETH for a 32 ETH cap
 			}
 		default:
 			return nil, fmt.Errorf("unknown balance pattern %q", pattern)
